@@ -313,8 +313,24 @@ _add(PropertySpec(
 
 _add(PropertySpec(
     'C14', 'other',
-    extras=[], bounded=_bounded('c14'),
-    explanation='placeholder: replaced below once the typestate obligations are registered',
+    registry='typestate',
+    functions=[f'ampycloud.data.CeiloChunk.{m}' for m in ('n_slices', 'n_groups', 'n_layers', '_get_cluster_ids', '_setup_sligrolay_pdf', 'metarize',
+                                                           '_merge_close_groups', 'find_slices', 'find_groups', 'find_layers', 'metar_msg', '_ncd_or_nsc')],
+    bounded=_bounded('c14'),
+    explanation=('PROVED (S = skeleton mode of the same executor, real ASTs, callee by typestate contract): for every stage / query operation and '
+                 'every typestate of a chunk (nothing / sliced / grouped / layered, with and without sets) the real body is executed on an '
+                 'abstract chunk that tracks only which id columns and tables exist plus a ghost version per id column / table: AmpycloudError '
+                 'is raised exactly when the prerequisite is missing or the call would discard the layering, and then *no* version has changed '
+                 '(the refused call leaves every earlier result intact); otherwise the call completes having written only its own id column / '
+                 'table (find_groups also the slices\' isolation flags, find_layers the groups\' ncomp) and the chunk is in the expected '
+                 'typestate; the four typestates are closed under all ten operations, so the statement holds for call sequences of any '
+                 'length.  That a permitted repetition reproduces identical *contents* follows from the stages reading only (_data, _prms) '
+                 '(frame obligations of C07/C11) and determinism (A-DET) -- except the isolation flags, see the known finding.  BOUNDED (B): '
+                 'all call sequences up to length 3 (thorough: 4) plus all two-step continuations of the canonical run on four scenes, '
+                 'comparing tables, id columns and messages with the canonical run.'),
+    assumptions=[A_FRAME, A_DET, 'A-PRMS: parameters keep their documented meaning (a helper refusing them would raise after a stage has started writing)',
+                 'pure expressions without a model evaluate to opaque values (A-LIBPURE); untracked local objects (fresh tables, arrays) are not followed'],
+    not_decided=['content-level idempotence beyond the typestate (bounded)'],
 ))
 
 _add(PropertySpec(
@@ -336,3 +352,31 @@ _add(PropertySpec(
     assumptions=[A_FRAME, A_DET],
     not_decided=['a semantic (rather than syntactic) proof that every postcondition is invariant under renaming'],
 ))
+
+
+def _c15_frames(run=None):
+    fc = _fs.FrameCheck()
+    s = fc.S('ampycloud.utils.utils.check_data_consistency')
+    fc.ob(s.qualname, 'argument_never_written', 'param:pdf' not in s.writes, str(fc.sites(s.qualname, 'param:pdf')))
+    fc.ob(s.qualname, 'result_is_fresh', not [av for av in s.ret if av[0] in ('R', 'S') and av[1].startswith('param:pdf')], str(sorted(s.ret, key=repr)))
+    fc.ob(s.qualname, 'no_module_state_written', not [w for w in s.writes if w.startswith('global:')], str(sorted(s.writes)))
+    return fc
+
+
+SPECS['C15'] = PropertySpec(
+    'C15', 'proof',
+    functions=['ampycloud.utils.utils.check_data_consistency'],
+    extras=[_c15_frames], bounded=_bounded('c15'),
+    explanation=('check_data_consistency is executed from its real AST (skeleton mode) on an abstract input frame: not a DataFrame / frame with a '
+                 'symbolic number of rows, any one required column missing, a superfluous column present or not, each required column with '
+                 'or without the required dtype (patterns: all, none, mixed; thorough: every combination), raw and coerced cell values as '
+                 'uninterpreted values with one coercion function per column.  Obligations: AmpycloudError is raised exactly when the input is '
+                 'not a DataFrame, has no rows, lacks a required column, has two rows equal in the four required columns *after coercion*, or '
+                 'has a (dt, ceilo) carrying both a type-0 and a non-0 row, or both a VV and a non-VV row (so coincidences on different '
+                 'ceilometers are accepted); otherwise a fresh frame with exactly the four columns, the required dtypes, the same number of '
+                 'rows and the coerced input values is returned; the argument object is never written (also a frame obligation); an already '
+                 'conforming frame triggers no column / dtype warning and comes back with identical values; the five sanity checks are '
+                 'warning-only (no raise reachable behind them).'),
+    assumptions=[A_FRAME, 'assumed pandas contracts of the input-frame dialect (pyvc/inframe_model.py): deepcopy, astype, drop, duplicated, inner merge',
+                 'dt values are not NaN (an inner merge would match NaN keys)', 'hardcoded.REQ_DATA_COLS is the documented dictionary (pinned by its source text)'],
+)
